@@ -6,7 +6,7 @@ rc=0
 for d in seeded/*/; do
   id=$(basename "$d")
   [ -n "${ONLY:-}" ] && [[ ! " $ONLY " == *" $id "* ]] && continue
-  prop=$(python3 -c "import json;print(json.load(open('$d/meta.json'))['breaks_property'])" 2>/dev/null) || continue
+  prop=$(python3 -c "import json;m=json.load(open('$d/meta.json'));print(m.get('caught_by_check',m['breaks_property']))" 2>/dev/null) || continue
   out=$(scripts/seeded_check.sh "$id" "$prop" --tier quick 2>&1 | tail -1)
   if echo "$out" | grep -q "exit=1"; then echo "caught  $id $prop  $(echo $out | sed 's/.*wall=/wall=/')"; else echo "MISSED  $id $prop  $out"; rc=1; fi
 done
